@@ -1,14 +1,17 @@
 mod adapt;
 mod checks;
 mod common;
+mod constants;
 mod exact;
 mod gen;
+mod oracle;
+mod splinegen;
 
 use common::*;
 use std::process::exit;
 
 fn registry() -> Vec<Box<dyn Check>> {
-    vec![Box::new(checks::c01::C01)]
+    vec![Box::new(checks::c01::C01), Box::new(checks::c02::C02), Box::new(checks::c03::C03)]
 }
 
 fn find(id: &str) -> Box<dyn Check> {
